@@ -47,6 +47,22 @@ def gen_script(rng, tier, focus=None):
         steps.append(['adv', 400])
         return {'stack': stack, 'neps': 1, 'open_delay': 0, 'pool': [1, 1, 100] if stack == 'thrift' else None,
                 'steps': steps, 'aged': False}
+    if focus == 'resume' and rng.random() < 0.4:
+        # two endpoints failing in turn under light sequential traffic, then both back, then silence for more than the
+        # maximum retry interval: every member that refused a connection must have been tried again
+        stack = rng.choice(['thrift', 'mux'])
+        steps = [['srv', 0, 'echo', 5], ['srv', 1, 'echo', 5], ['adv', 50], ['call', 107], ['adv', 20]]
+        first = rng.randrange(2)
+        for ep in (first, 1 - first):
+            steps += [['reach', ep, False], ['kill', ep]]
+            for _ in range(rng.choice([2, 3, 4])):
+                steps += [['call', 107], ['adv', rng.choice([20, 200, 1000])]]
+        steps += [['adv', rng.choice([200, 7000])]]
+        back = [0, 1] if rng.random() < 0.6 else [rng.randrange(2)]
+        steps += [['reach', ep, True] for ep in back]
+        steps += [['adv', 30000], ['adv', 32000], ['adv', 5000], ['call', 107], ['adv', 200]]
+        return {'stack': stack, 'neps': 2, 'open_delay': 0, 'pool': None, 'steps': steps, 'aged': False,
+                'after_close': 'up'}
     if focus == 'resume':
         # C09 on the assembled client with one endpoint: the connection is lost in one of several ways while the
         # endpoint refuses new connections, the endpoint comes back, and the client is left without traffic for longer
@@ -560,9 +576,11 @@ def run_script(script, comp='e2e'):
                 if st[1] < neps:
                     srvs[st[1]].net.reachable = st[2]
                     tags.add('unreachable' if not st[2] else 'reachable-again')
-                    if neps == 1:
-                        # single endpoint: nothing may retire it, so C09's "resumes within one maximum retry
-                        # interval" is decidable on the log (the interval is read from the real builder defaults)
+                    if neps <= 2:
+                        # one or two endpoints (aperture min_size 1): a member that refused a connection is never
+                        # retired (contraction needs more than min_size healthy members, and with two endpoints that
+                        # means none is down), so C09's "resumes within one maximum retry interval" is decidable on
+                        # the log (the interval is read from the real builder defaults)
                         from scales.resurrector import ResurrectorSink
                         mw = ResurrectorSink.Builder().sink_properties.max_wait_interval
                         ev('reach', st[1], bool(st[2]), now(), int(mw * 1000000))
